@@ -38,7 +38,11 @@ def make_cases(tier):
     singles = [(qi, s) for qi in range(len(pool)) for s in range(1, nsrc + 1)]
     if tier == "quick":
         r.shuffle(singles)
-        singles = singles[:220]
+        # every query on the trees built for particular query shapes (repeated groups with two captures, comments, nested same-kind
+        # nodes, zero-width nodes), a random selection of the rest
+        names = A.source_names()
+        special = {j + 1 for j, nm in enumerate(names) if any(k in nm for k in ("s17b_", "s17a_", "s17i_", "s17f_", "s13_"))}
+        singles = [x for x in singles if x[1] in special] + [x for x in singles if x[1] not in special][:160]
     for qi, s in singles:
         prog = A.file([probe_stanza(1, pool[qi], skip_underscore=(qi + s) % 2 == 0)])
         cases += A.both_modes("c03s-%d-%d" % (qi, s), prog, s, visit=True)
